@@ -956,3 +956,24 @@ fn test_empty_expression_error_has_line() {
         assert_eq!(err.line(), Some(1));
     }
 }
+
+#[test]
+fn test_empty_assignment_target_is_a_syntax_error() {
+    let env = Environment::new();
+    for source in [
+        "{% for in [1] %}x{% endfor %}",
+        "{% for () in [[]] %}x{% endfor %}",
+        "{% for a, () in [[1, []]] %}x{% endfor %}",
+        "{% set () = [] %}",
+    ] {
+        let err = env.template_from_str(source).unwrap_err();
+        assert_eq!(err.kind(), ErrorKind::SyntaxError, "{source}");
+        assert_eq!(err.line(), Some(1));
+    }
+    // a trailing comma still makes a one element target list
+    assert_eq!(
+        env.render_str("{% for a, in [[1]] %}{{ a }}{% endfor %}", ())
+            .unwrap(),
+        "1"
+    );
+}
